@@ -1,7 +1,6 @@
-//! C29: not implemented yet.
+//! C29: B-tree pages stay structurally valid (invariant walker after every op). Engine in c28.rs.
 use crate::Args;
 
-pub fn run(_a: &Args) -> i32 {
-    println!("INCONCLUSIVE property=C29 reason=check not implemented yet");
-    2
+pub fn run(a: &Args) -> i32 {
+    super::c28::run_engine(a, "C29")
 }
